@@ -44,12 +44,23 @@ def parsePairs (s : String) : Option (List (String × Nat)) :=
 structure St where
   path : String := "x.exp"
   bytes : List Char := []
+  done : List Schema := []         -- finished schemas, reversed
   schemaName : String := "s"
   schemaLine : Nat := 0
-  decls : List Decl := []          -- reversed
+  started : Bool := false
+  ifaces : List Iface := []        -- of the current schema, reversed
+  decls : List Decl := []          -- of the current schema, reversed
+  order : List String := []
   deriving Inhabited
 
-def St.file (st : St) : File := ⟨st.path, ⟨st.schemaName, st.schemaLine, st.decls.reverse⟩⟩
+def St.current (st : St) : Schema := ⟨st.schemaName, st.schemaLine, st.decls.reverse, st.ifaces.reverse⟩
+
+def St.file (st : St) : File :=
+  ⟨st.path, (if st.started then st.current :: st.done else st.done).reverse, st.order⟩
+
+def St.newSchema (st : St) (n : String) (l : Nat) : St :=
+  { st with done := (if st.started then st.current :: st.done else st.done),
+            schemaName := n, schemaLine := l, started := true, ifaces := [], decls := [] }
 
 def updEntity (st : St) (f : Entity → Entity) : Option St :=
   match st.decls with
@@ -60,6 +71,13 @@ def updRule (st : St) (it : RuleItem) : Option St :=
   updEntity st fun e => match e.rules.reverse with
     | r :: rs => { e with rules := (({ r with items := r.items ++ [it] }) :: rs).reverse }
     | [] => e
+
+def updIface (st : St) (it : Item) : Option St :=
+  match st.ifaces with
+  | i :: r => match i.items with
+    | some its => some { st with ifaces := { i with items := some (its ++ [it]) } :: r }
+    | none => none
+  | [] => none
 
 def parseSwitches (s : String) : Option (List Diag.Switch) :=
   if s = "-" then some [] else
@@ -121,16 +139,28 @@ def handle (st : St) (line : String) : St × String :=
   match (line.trimAscii.toString.splitOn " ").filter (· ≠ "") with
   | ["file", p] => match unhexS p with | some p => ({ (default : St) with path := p }, "") | none => bad
   | ["bytes", h] => match (if h = "-" then some [] else unhex h.toList) with | some b => ({ st with bytes := b }, "") | none => bad
-  | ["schema", n, l] => ok (l.toNat?.map fun l => { st with schemaName := n, schemaLine := l })
+  | ["schema", n, l] => ok (l.toNat?.map fun l => st.newSchema n l)
+  | ["iface", k, sch, l, form] =>
+    (match k, form, l.toNat? with
+     | "use", "whole", some l => ({ st with ifaces := ⟨.use, sch, l, none⟩ :: st.ifaces }, "")
+     | "ref", "whole", some l => ({ st with ifaces := ⟨.ref, sch, l, none⟩ :: st.ifaces }, "")
+     | "use", "items", some l => ({ st with ifaces := ⟨.use, sch, l, some []⟩ :: st.ifaces }, "")
+     | "ref", "items", some l => ({ st with ifaces := ⟨.ref, sch, l, some []⟩ :: st.ifaces }, "")
+     | _, _, _ => bad)
+  | ["item", o, n, l] => ok (l.toNat? >>= fun l => updIface st ⟨o, if n = "-" then none else some n, l⟩)
+  | ["order", names] => ({ st with order := names.splitOn "," }, "")
+  | ["redecl", n, l, t, sup] => ok (do
+      let l ← l.toNat?; let t ← parseTypeRef t
+      updEntity st fun e => { e with attrs := e.attrs ++ [⟨n, l, t, none, some sup⟩] })
   | ["entity", n, l] => ok (l.toNat?.map fun l => { st with decls := .entity ⟨n, l, [], [], [], []⟩ :: st.decls })
   | ["super", n, l] => ok (l.toNat? >>= fun l => updEntity st fun e => { e with supers := e.supers ++ [(n, l)] })
   | ["sub", n] => ok (updEntity st fun e => { e with subs := e.subs ++ [n] })
   | ["attr", n, l, t] => ok (do
       let l ← l.toNat?; let t ← parseTypeRef t
-      updEntity st fun e => { e with attrs := e.attrs ++ [⟨n, l, t, none⟩] })
+      updEntity st fun e => { e with attrs := e.attrs ++ [⟨n, l, t, none, none⟩] })
   | ["inv", n, l, t, fn, fl] => ok (do
       let l ← l.toNat?; let t ← parseTypeRef t; let fl ← fl.toNat?
-      updEntity st fun e => { e with attrs := e.attrs ++ [⟨n, l, t, some (fn, fl)⟩] })
+      updEntity st fun e => { e with attrs := e.attrs ++ [⟨n, l, t, some (fn, fl), none⟩] })
   | ["rule", n, l] => ok (l.toNat? >>= fun l => updEntity st fun e => { e with rules := e.rules ++ [⟨n, l, []⟩] })
   | ["call", fn, argc] => ok (argc.toNat? >>= fun a => updRule st (.call fn a))
   | ["selfattr", n] => ok (updRule st (.selfAttr n))
@@ -164,7 +194,7 @@ def handle (st : St) (line : String) : St × String :=
      | "1", some es => (st, dfsReply true e es)
      | _, _ => bad)
   | ["consts"] =>
-    (st, s!"C fwd={LibErrors.withLineForwardsVaList} guard={LibErrors.setWarningNullGuard} retSub={ResolveGen.visitedReturnsSubsuper} retSel={ResolveGen.visitedReturnsSelect}")
+    (st, s!"C fwd={LibErrors.withLineForwardsVaList} guard={LibErrors.setWarningNullGuard} sevGuard={LibErrors.setWarningSeverityGuard} retSub={ResolveGen.visitedReturnsSubsuper} retSel={ResolveGen.visitedReturnsSelect} fallback={ResolveGen.renameUselistFallback}")
   | [] => (st, "")
   | _ => bad
 
